@@ -11,7 +11,7 @@ import props.C10 as C10
 PID = 'C05'
 PROPERTY_FILE = 'Properties/C05.v'
 # generated model parts (translate/) this property's model / proofs really depend on
-GEN_DEPS = ['OpsImpl', 'QuantityImpl', 'RoundingImpl']
+GEN_DEPS = ['OpsImpl', 'QuantityImpl', 'RoundingImpl', 'AllocImpl']
 MODEL_TARGETS = Q.MODEL_TARGETS
 PROOF_TARGETS = ['Proofs/GenOpsEq.vo', 'Proofs/C05Proofs.vo', 'Proofs/C10MoneyProofs.vo']
 COQ_HEADER = Q.COQ_HEADER
